@@ -52,9 +52,23 @@ func (dec *Decoder) fastReadStringAsBytes(utf16Length int) (data []byte) {
 	off := 0
 	for ; utf16Length > 0; utf16Length-- {
 		var ok bool
+		if off >= len(buf) {
+			// a 4-byte character counts two units: an odd length can run past the data
+			if dec.Error == nil {
+				dec.Error = ErrInvalidUTF8
+			}
+			return
+		}
 		if off, utf16Length, ok = dec.checkUTF8String(buf, off, utf16Length); !ok {
 			return
 		}
+	}
+	if off > len(buf) {
+		// the last character is cut off by the end of the data
+		if dec.Error == nil {
+			dec.Error = ErrInvalidUTF8
+		}
+		return nil
 	}
 	dec.head += off
 	return buf[:off]
@@ -65,7 +79,7 @@ func (dec *Decoder) readStringAsBytes(utf16Length int) (data []byte, safe bool) 
 		return nil, true
 	}
 	length := dec.tail - dec.head
-	if length >= utf16Length*3 {
+	if length/3 >= utf16Length { // not utf16Length*3: a huge length from the wire would overflow
 		return dec.fastReadStringAsBytes(utf16Length), false
 	}
 	for {
